@@ -132,7 +132,10 @@ impl MolecularShape2 {
             // found from the distance to the chord which joins them and half the length of the
             // chord, where the expression for the chord is the same for both of the circles so
             // the ends of their arcs meet, even when the circles only just overlap.
-            let to_chord = (distance.powi(2) + atom.radius.powi(2) - other.radius.powi(2))
+            // The difference of the squared radii is found as a product, where the radii are the
+            // same and the circles nearly coincide the square of the distance would be lost.
+            let to_chord = (distance.powi(2)
+                + (atom.radius - other.radius) * (atom.radius + other.radius))
                 / (2. * distance);
             let half_chord = f64::sqrt(
                 (atom.radius + other.radius + distance)
